@@ -154,6 +154,7 @@ def load_db(gd):
             text = f.read()
         return yaml.safe_load(text), Gene(path, genome=gd["genome"])
     if gd["kind"] == "toy":
+        gd = {**gd, "genome": gd.get("genome", "hg19")}
         path = os.path.join(lib.REPO, "aldy/tests/resources/toy.yml")
         with open(path) as f:
             text = f.read()
